@@ -481,6 +481,12 @@ func (env *Env) evalInstr(in ssa.Instruction, get func(ssa.Value) Val, st *State
 		x := get(in.X)
 		st := deref(in.X.Type())
 		s, _ := isStruct(st)
+		if x.Loc != nil && (x.Loc.Kind == LLocal || x.Loc.Kind == LFieldOf) {
+			if _, isS := isStruct(x.Loc.Typ); isS {
+				// field of a struct value held in a local variable
+				return Val{Loc: &Loc{Kind: LFieldOf, Parent: x.Loc, Idx: fmt.Sprintf("%d", in.Field), Typ: s.Field(in.Field).Type()}, S: "Ref"}, true
+			}
+		}
 		if x.Loc != nil {
 			x = env.materialize(x)
 		}
@@ -1122,6 +1128,21 @@ func (p *Pure) call(c *ssa.Call, mode int) Val {
 	}
 	if o := callee.Origin(); o != nil && o.Name() == "__vc_old" {
 		return p.term(com.Args[0], modeOld)
+	}
+	if o := callee.Origin(); o != nil && o.Name() == "__vc_same" {
+		// identity of representation (for Values: same dynamic type and payload, NaN equals NaN)
+		x, y := p.term(com.Args[0], mode), p.term(com.Args[1], mode)
+		if x.Loc != nil {
+			x = p.env.materialize(x)
+		}
+		if y.Loc != nil {
+			y = p.env.materialize(y)
+		}
+		return Val{T: fmt.Sprintf("(= %s %s)", x.T, y.T), S: "Bool"}
+	}
+	if o := callee.Origin(); o != nil && o.Name() == "__vc_sameslice" {
+		x, y := p.term(com.Args[0], mode), p.term(com.Args[1], mode)
+		return Val{T: fmt.Sprintf("(= %s %s)", x.T, y.T), S: "Bool"}
 	}
 	var args []Val
 	for _, a := range com.Args {
